@@ -6,8 +6,8 @@ VF_TRACE=<file>        append one JSON line per boundary call: {"i": n, "name": 
 VF_FAULT_PLAN=<n>:<kind>   inject `kind` at the n-th boundary call
 
 Boundaries: black.format_str, subprocess.run of the format-command, reading a test file, ensure_import,
-DiscStorage.persist, Path.rename inside the storage, opening a test file for writing, writing to it,
-SourceFile.new_code.
+DiscStorage.persist, Path.rename inside the storage, opening a test file for writing, writing to it, closing it
+(flush of buffered data), replacing the file, SourceFile.new_code.
 """
 
 import builtins
@@ -32,6 +32,7 @@ KINDS = {
     "rename": ["oserror"],
     "open-w": ["oserror"],
     "write": ["oserror", "partial"],
+    "close": ["partial-flush"],
     "new_code": ["runtime"],
     "replace": ["oserror"],
 }
@@ -180,6 +181,13 @@ def install():
             return self
 
         def __exit__(self, *a):
+            if a and a[0] is None and hit("close") == "partial-flush":
+                # the buffered data reaches the disk when the file is closed: only a part of it fits
+                self._f.flush()
+                size = self._f.tell()
+                self._f.truncate(max(1, size // 2))
+                self._f.__exit__(None, None, None)
+                raise OSError(28, "injected: no space left on device (at close)")
             return self._f.__exit__(*a)
 
         def __getattr__(self, name):
